@@ -686,7 +686,8 @@ Lemma pr_ds_query_full fuel (s : dsolver) l ps s' ans ps' :
          {| k_cur := []; k_state := MInit; k_sel := zlit (1 + session_n_vars (sess ps1)) |} true None
          (repeat false (1 + match max_argument_id L af with Some m => m | None => 0 end)) ps2
          = Done (k, result, acc_b, ref_b, ext) ps3 /\
-       s' = pushed_state L s af buf (DSkep L acc refused ext) /\ ans = (result, ext)).
+       s' = pushed_state L s af buf (DSkep L acc refused ext) /\ ans = (result, ext) /\
+       ps2 = st_nvars ps1 /\ ps' = st_add ps3 [k_sel k]).
 Proof.
   unfold pr_ds_query. intros E.
   destruct (is_skep L leqb (s_buf L s) l) as [[b|] [X|]].
@@ -694,14 +695,16 @@ Proof.
       exists b, X. auto. }
   all: right; apply bind_Done in E; destruct E as ([af buf] & ps1 & E1 & E2);
     exists af, buf, ps1; (split; [exact E1|]); intros e He; rewrite He in E2;
-    apply bind_Done in E2; destruct E2 as (n & ps2 & E2 & E3); apply n_vars_sess in E2; destruct E2 as [-> Hs2];
+    apply bind_Done in E2; destruct E2 as (n & ps2 & E2 & E3);
+    assert (Hps2 : ps2 = st_nvars ps1) by (unfold n_vars in E2; apply Done_inj in E2; destruct E2 as [_ <-]; reflexivity);
+    apply n_vars_sess in E2; destruct E2 as [-> Hs2];
     apply bind_Done in E3; destruct E3 as (arg_id & ps3 & E3 & E4); apply opt_m_Done in E3; destruct E3 as [Hid ->];
     apply bind_Done in E4; destruct E4 as ([[[[k result] acc_b] ref_b] X'] & ps4 & E4 & E5);
     apply bind_Done in E5; destruct E5 as (acc & ps5 & E5 & E6); apply opt_m_Done in E5; destruct E5 as [_ ->];
     apply bind_Done in E6; destruct E6 as (refused & ps6 & E6 & E7); apply opt_m_Done in E6; destruct E6 as [_ ->];
-    apply bind_Done in E7; destruct E7 as (u & ps7 & E7 & E8);
-    apply ret_Done in E8; destruct E8 as [E8 _]; apply pair_equal_spec in E8; destruct E8 as [<- <-];
-    exists arg_id, ps2, k, result, acc_b, ref_b, X', ps4, acc, refused; auto 6.
+    apply bind_Done in E7; destruct E7 as (u & ps7 & E7 & E8); apply add_clause_Done in E7;
+    apply ret_Done in E8; destruct E8 as [E8 <-]; apply pair_equal_spec in E8; destruct E8 as [<- <-];
+    exists arg_id, ps2, k, result, acc_b, ref_b, X', ps4, acc, refused; auto 8.
 Qed.
 
 Lemma dyn_query_pr_inv' thr fuel (s : dsolver) q cert l ps s' a ps' :
@@ -905,7 +908,7 @@ Proof.
     + split; [discriminate|]. intros Hsk. destruct (Hsk X K1) as (a & [<-|[]] & Ha). contradiction.
     + auto 7.
   - destruct (query_ready_pr thr s ps os af buf ps1 Hv Hue) as (e & He & Hrd & Hsem & Hlv & Hbd & Haf & _).
-    destruct (Hrest e He) as (id' & ps2 & k & result & acc_b & ref_b & ext & ps3 & acc & refused & Hid & Hs2 & Hloop & _ & ->).
+    destruct (Hrest e He) as (id' & ps2 & k & result & acc_b & ref_b & ext & ps3 & acc & refused & Hid & Hs2 & Hloop & _ & -> & _).
     assert (id' = id) by (rewrite Haf in Hid; congruence). subst id'.
     destruct (pr_search_correct fuel af e ps1 ps2 l id k result acc_b ref_b ext ps3 os Hrd Hsem Hlv Hbd Haf Hid Hs2 Hloop)
       as [(-> & X & -> & Hp & Hnd & Hn)|(-> & -> & Hall)]; rewrite Haf in *; split; cbn [fst snd].
